@@ -1,6 +1,8 @@
 // Command probe demonstrates, against the real code, each defect that was repaired by a
 // "fix:" commit in /repo (or is recorded as a known finding).  One line per probe:
-//   PROBE <name> holds|VIOLATED <detail>
+//
+//	PROBE <name> holds|VIOLATED <detail>
+//
 // It is a demonstration aid, not a check: the checks decide the properties.
 package main
 
